@@ -359,6 +359,8 @@ pub fn xor_key() -> BS<Option<Vec<u8>>> {
         1 => (any::<u8>(), 1usize..=16).prop_map(|(b, n)| Some(vec![b; n])),
         2 => (1usize..=64).prop_flat_map(|n| vec(any::<u8>(), n)).prop_map(Some),
         1 => prop_oneof![Just(1usize), Just(3usize), Just(7usize), Just(13usize), Just(31usize), Just(64usize)].prop_flat_map(|n| vec(any::<u8>(), n)).prop_map(Some),
+        // keys that turn the first four bytes of a Bitcoin blk file (the network magic f9beb4d9) into another coin's magic
+        1 => (proptest::sample::select(vec![0xfeb4bef9u32, 0xdbb6c0fb, 0xc0c0c0c0, 0xee7645af, 0x03b5d503, 0xe3ede5f4, 0x0709110b]), vec(any::<u8>(), 4..=8)).prop_map(|(other, tail)| { let mut k = (0xd9b4bef9u32 ^ other).to_le_bytes().to_vec(); k.extend(tail); Some(k) }),
         // the statement says any length: keys longer than Bitcoin Core's 8 bytes, than a block header, than the 32 KiB read buffer
         1 => prop_oneof![Just(65usize), Just(100usize), Just(255usize), Just(256usize), Just(1000usize), Just(4096usize), Just(32768usize), Just(32769usize), Just(70_001usize)].prop_flat_map(|n| vec(any::<u8>(), n)).prop_map(Some),
     ].boxed()
